@@ -1,0 +1,177 @@
+//go:build verif
+
+package fans
+
+// Contracts for package fans, read by /verif/govc (comment-only file, compiled only with -tags verif).
+
+// ---- ghost log of what was written through Fan.SetPwm / Fan.SetPwmEnabled (keyed by fan object) ----
+//@ ghost var pwmWrites gmap[int]int
+//@ ghost var lastPwm gmap[int]int
+//@ ghost var modeWrites gmap[int]int
+//@ ghost var lastMode gmap[int]int
+
+// ---- well-formed fan objects (established by NewFan) ----------------------------------------------
+//@ pure hwWF(h *HwMonFan) bool = h != nil && h.Config.HwMon != nil && h.Config.HwMon.PwmPath != h.Config.HwMon.PwmEnablePath
+//@ pure fileWF(h *FileFan) bool = h != nil && h.Config.File != nil
+//@ pure cmdWF(h *CmdFan) bool = h != nil && h.Config.Cmd != nil && h.Config.Cmd.SetPwm != nil && h.Config.Cmd.GetPwm != nil
+//@ pure fanWF(fan Fan) bool = fan != nil && (fan is *HwMonFan ==> hwWF(fan.(*HwMonFan))) && (fan is *FileFan ==> fileWF(fan.(*FileFan))) && (fan is *CmdFan ==> cmdWF(fan.(*CmdFan)))
+
+// ---- the abstraction the controller reasons with ---------------------------------------------------
+//@ pure hwMin(h *HwMonFan) int = (h.Config.NeverStop && h.MinPwm != nil) ? *h.MinPwm : 0
+//@ pure hwMax(h *HwMonFan) int = h.MaxPwm != nil ? *h.MaxPwm : 255
+//@ pure hwStart(h *HwMonFan) int = h.StartPwm != nil ? *h.StartPwm : 255
+//@ pure fanMin(fan Fan) int = fan is *HwMonFan ? hwMin(fan.(*HwMonFan)) : 0
+//@ pure fanMax(fan Fan) int = fan is *HwMonFan ? hwMax(fan.(*HwMonFan)) : 255
+//@ pure fanNeverStop(fan Fan) bool = fan is *HwMonFan ? fan.(*HwMonFan).Config.NeverStop : (fan is *FileFan ? fan.(*FileFan).Config.NeverStop : fan.(*CmdFan).Config.NeverStop)
+//@ pure hwPwmPath(h *HwMonFan) string = h.Config.HwMon.PwmPath
+//@ pure hwEnablePath(h *HwMonFan) string = h.Config.HwMon.PwmEnablePath
+
+// ======================================= HwMonFan ===================================================
+
+//@ func (*HwMonFan).GetId
+//@   ensures result == fan.Config.ID
+//@   modifies nothing
+
+//@ func (*HwMonFan).ShouldNeverStop
+//@   ensures result == fan.Config.NeverStop
+//@   modifies nothing
+
+//@ func (*HwMonFan).GetMinPwm
+//@   props C13
+//@   ensures result == hwMin(fan)
+//@   ensures[C13.nostop-zero] !fan.Config.NeverStop ==> result == 0
+//@   modifies nothing
+
+//@ func (*HwMonFan).GetMaxPwm
+//@   ensures result == hwMax(fan)
+//@   modifies nothing
+
+//@ func (*HwMonFan).GetStartPwm
+//@   ensures result == hwStart(fan)
+//@   modifies nothing
+
+//@ func (*HwMonFan).GetRpmAvg
+//@   ensures result == fan.RpmMovingAvg
+//@   modifies nothing
+
+//@ func (*HwMonFan).SetRpmAvg
+//@   ensures fan.RpmMovingAvg == rpm
+//@   modifies fan.RpmMovingAvg
+
+//@ func (*HwMonFan).GetPwm
+//@   returns (result, err)
+//@   requires hwWF(fan)
+//@   ensures err == nil ==> result == fileInt[hwPwmPath(fan)] && fan.Pwm == result
+//@   ensures err != nil ==> result == 0 && fan.Pwm == old(fan.Pwm)
+//@   modifies fan.Pwm
+
+//@ func (*HwMonFan).GetRpm
+//@   returns (result, err)
+//@   requires hwWF(fan)
+//@   ensures err != nil ==> result == 0
+//@   modifies fan.Rpm
+
+//@ func (*HwMonFan).SetPwm
+//@   requires hwWF(fan)
+//@   ghostdo pwmWrites[fan] := pwmWrites[fan] + 1
+//@   ghostdo lastPwm[fan] := pwm
+//@   ensures pwmWrites == old(pwmWrites)[fan := old(pwmWrites)[fan] + 1] && lastPwm == old(lastPwm)[fan := pwm]
+//@   ensures err == nil && hwPwmPath(fan) in faithful ==> fileInt[hwPwmPath(fan)] == pwm
+//@   ensures forall p string :: p != hwPwmPath(fan) ==> fileInt[p] == old(fileInt)[p]
+//@   modifies pwmWrites, lastPwm, fileInt
+
+//@ func (*HwMonFan).GetPwmEnabled
+//@   requires hwWF(fan)
+//@   ensures result1 == nil ==> result0 == fileInt[hwEnablePath(fan)]
+//@   modifies nothing
+
+//@ func (*HwMonFan).Supports
+//@   requires hwWF(fan)
+//@   modifies nothing
+
+// ======================================= FileFan ====================================================
+
+//@ func (*FileFan).GetId
+//@   ensures result == fan.Config.ID
+//@   modifies nothing
+//@ func (*FileFan).ShouldNeverStop
+//@   ensures result == fan.Config.NeverStop
+//@   modifies nothing
+//@ func (*FileFan).GetMinPwm
+//@   props C13
+//@   ensures result == 0
+//@   modifies nothing
+//@ func (*FileFan).GetMaxPwm
+//@   ensures result == 255
+//@   modifies nothing
+//@ func (*FileFan).GetStartPwm
+//@   ensures result == 1
+//@   modifies nothing
+//@ func (*FileFan).GetRpmAvg
+//@   ensures result == float64(fan.Rpm)
+//@   modifies nothing
+//@ func (*FileFan).SetRpmAvg
+//@   modifies fan.Rpm
+//@ func (*FileFan).GetPwm
+//@   requires fileWF(fan)
+//@   ensures err != nil ==> fan.Pwm == old(fan.Pwm)
+//@   modifies fan.Pwm
+//@ func (*FileFan).GetRpm
+//@   requires fileWF(fan)
+//@   ensures err != nil ==> result == 0
+//@   modifies fan.Rpm
+//@ func (*FileFan).SetPwm
+//@   requires fileWF(fan)
+//@   ghostdo pwmWrites[fan] := pwmWrites[fan] + 1
+//@   ghostdo lastPwm[fan] := pwm
+//@   ensures pwmWrites == old(pwmWrites)[fan := old(pwmWrites)[fan] + 1] && lastPwm == old(lastPwm)[fan := pwm]
+//@   modifies pwmWrites, lastPwm, fileInt
+//@ func (*FileFan).Supports
+//@   requires fileWF(fan)
+//@   ensures feature == FeatureControlMode ==> !result
+//@   modifies nothing
+
+// ======================================= CmdFan =====================================================
+
+//@ func (*CmdFan).GetId
+//@   ensures result == fan.Config.ID
+//@   modifies nothing
+//@ func (*CmdFan).ShouldNeverStop
+//@   ensures result == fan.Config.NeverStop
+//@   modifies nothing
+//@ func (*CmdFan).GetMinPwm
+//@   props C13
+//@   ensures result == 0
+//@   modifies nothing
+//@ func (*CmdFan).GetMaxPwm
+//@   ensures result == 255
+//@   modifies nothing
+//@ func (*CmdFan).GetStartPwm
+//@   ensures result == 1
+//@   modifies nothing
+//@ func (*CmdFan).GetRpmAvg
+//@   ensures result == float64(fan.Rpm)
+//@   modifies nothing
+//@ func (*CmdFan).SetRpmAvg
+//@   modifies fan.Rpm
+//@ func (*CmdFan).GetPwm
+//@   requires cmdWF(fan)
+//@   ensures err != nil ==> fan.Pwm == old(fan.Pwm)
+//@   modifies fan.Pwm, procWorld
+//@ func (*CmdFan).GetRpm
+//@   returns (result, err)
+//@   requires cmdWF(fan)
+//@   modifies fan.Rpm, procWorld
+//@ func (*CmdFan).SetPwm
+//@   requires cmdWF(fan)
+//@   ghostdo pwmWrites[fan] := pwmWrites[fan] + 1
+//@   ghostdo lastPwm[fan] := pwm
+//@   ensures pwmWrites == old(pwmWrites)[fan := old(pwmWrites)[fan] + 1] && lastPwm == old(lastPwm)[fan := pwm]
+//@   modifies pwmWrites, lastPwm, procWorld
+//@   loop 1 "for _, arg := range conf.Args"
+//@     invariant -1 <= rangeindex && arrayOf(args) >= old(W)
+//@ func (*CmdFan).Supports
+//@   requires cmdWF(fan)
+//@   ensures feature == FeatureControlMode ==> !result
+//@   ensures feature == FeaturePwmSensor ==> result
+//@   modifies nothing
